@@ -203,6 +203,7 @@ const char *vp_engine_source(void *e) { return ((mmd_engine *)e)->dstr->str; }
 void vp_engine_free(void *e) { mmd_engine_free((mmd_engine *)e, true); }
 /* an engine over a caller-owned DString (the editor use case): the caller replaces the text and converts again */
 void vp_engine_set_language(void *e, int lang) { mmd_engine_set_language((mmd_engine *)e, (short)lang); }
+void vp_engine_parse_range(void *e, unsigned long start, unsigned long len) { mmd_engine_parse_substring((mmd_engine *)e, start, len); }
 void vp_engine_parse(void *e) { mmd_engine_parse_string((mmd_engine *)e); }
 void *vp_engine_new_d(const char *src, unsigned long ext) { DString *d = d_string_new(src); return mmd_engine_create_with_dstring(d, ext); }
 void vp_engine_set_text(void *e, const char *src) { DString *d = ((mmd_engine *)e)->dstr; d_string_erase(d, 0, d->currentStringLength); d_string_append(d, src); }
